@@ -3,6 +3,7 @@
    them.  An edit to one of these functions is an unclassified change: the tie of every property whose model
    rests on it breaks, and the check then searches for a failing input.  (White space and comments are normalised.) *)
 From Coq Require Import String List.
+From BT Require Import Model.GenTypes.
 Import ListNotations.
 Open Scope string_scope.
 
@@ -35,4 +36,28 @@ Definition ref_shapes : list (string * string) := [
   ("initCancelReader", "{ if cancel && p.cancelReader != nil { p.cancelReader.Cancel() p.waitForReadLoop() } var err error p.cancelReader, err = newInputReader(p.input, p.mouseMode) if err != nil { return fmt.Errorf(""error creating cancelreader: %w"", err) } p.readLoopDone = make(chan struct{}) go p.readLoop() return nil }");
   ("eventLoop:sequenceMsg", "go func() { for _, cmd := range msg { if cmd == nil { continue } msg := cmd() if batchMsg, ok := msg.(BatchMsg); ok { g, _ := errgroup.WithContext(p.ctx) for _, cmd := range batchMsg { cmd := cmd g.Go(func() error { p.Send(cmd()) return nil }) } g.Wait() continue } p.Send(msg) } }()");
   ("eventLoop:BatchMsg", "for _, cmd := range msg { select { case <-p.ctx.Done(): return model, nil case cmds <- cmd: } } ; continue")
+].
+
+(* the cases of eventLoop's type switch (message types, how the case ends), frozen: a message kind that gains or loses
+   built-in handling, or a case that starts / stops reaching Update, is an unclassified change *)
+Definition ref_dispatch : list (list string * dend) := [
+  (["QuitMsg"], (DReturn "nil"));
+  (["InterruptMsg"], (DReturn "ErrInterrupted"));
+  (["SuspendMsg"], DFall);
+  (["clearScreenMsg"], DFall);
+  (["enterAltScreenMsg"], DFall);
+  (["exitAltScreenMsg"], DFall);
+  (["enableMouseCellMotionMsg"; "enableMouseAllMotionMsg"], DFall);
+  (["disableMouseMsg"], DFall);
+  (["showCursorMsg"], DFall);
+  (["hideCursorMsg"], DFall);
+  (["enableBracketedPasteMsg"], DFall);
+  (["disableBracketedPasteMsg"], DFall);
+  (["enableReportFocusMsg"], DFall);
+  (["disableReportFocusMsg"], DFall);
+  (["execMsg"], DFall);
+  (["BatchMsg"], DContinue);
+  (["sequenceMsg"], DFall);
+  (["setWindowTitleMsg"], DFall);
+  (["windowSizeMsg"], DFall)
 ].
